@@ -8,6 +8,13 @@ Case text (also the corpus / replay format):
     call   : <t>@<val>[i]      t in ticks (1/16 s); trailing i = pass the number as a Python int
     val    : n<k> (the number k/16) | s<hex utf-8 or -> | l<ints or -> | p<v>,<min>,<max>,<pending> | b0 | b1 (False / True) | N (None)
 `shared`: one Parameter object is updated in place between calls (as the device code does).
+`inplace`: ONE container object owned by the caller is changed in place (clear / append / del / item assignment, also on
+its inner containers) to the next content and passed again as the same object (EcoMAX dispatches its `mixers` /
+`thermostats` dicts like that).  Extra value forms of this mode (python side only; the model sees a value with the same
+equality / membership structure): L<inner>/<inner>.. list of integer lists (inner `e` = empty; model: list of the inner
+lists' injective codes), D<k>=<v>,.. dict of integers, E<k>=<i.i>,.. dict of integer lists (model: an opaque value with
+structural equality and no subtraction, carried as the string of the key-sorted text).  The model treats every call's value
+as an immutable snapshot: what was delivered is compared with the content AT THE TIME OF THE CALL.
 """
 import random
 import time
@@ -53,16 +60,119 @@ def case_text(flt, t0, mode, calls):
     return " ".join([flt, str(t0), mode] + [f"{t}@{v}{'i' if i else ''}" for t, v, i in calls])
 
 
+def inner_code(xs):
+    """injective code of a list of small non-negative integers"""
+    c = 0
+    for x in reversed(xs):
+        assert 0 <= x < 98
+        c = c * 99 + x + 1
+    return c
+
+
+def parse_container(v):
+    """L / D / E value text -> python content (fresh objects)"""
+    k, body = v[0], v[1:]
+    if k == "L":
+        return [] if body == "-" else [[] if it == "e" else [int(x) for x in it.split(",")] for it in body.split("/")]
+    if k == "D":
+        return {} if body == "-" else {int(a): int(b) for a, b in (it.split("=") for it in body.split(","))}
+    if k == "E":
+        return {} if body == "-" else {int(a): ([] if b == "e" else [int(x) for x in b.split(".")]) for a, b in (it.split("=") for it in body.split(","))}
+    raise ValueError(v)
+
+
+def container_text(x, nested):
+    if isinstance(x, list):
+        if not nested:
+            return "l" + (",".join(map(str, x)) or "-")
+        return "L" + ("/".join(",".join(map(str, i)) or "e" for i in x) or "-")
+    if not nested:
+        return "D" + (",".join(f"{k}={v}" for k, v in x.items()) or "-")
+    return "E" + (",".join(f"{k}={'.'.join(map(str, v)) or 'e'}" for k, v in x.items()) or "-")
+
+
+def dict_model(d):
+    canon = ",".join(f"{k}={'.'.join(map(str, v)) if isinstance(v, list) else v}" for k, v in sorted(d.items()))
+    return "s" + ("{" + canon + "}").encode().hex()
+
+
+def model_val(v):
+    """value text of a case -> value text of the Lean model"""
+    if v[0] == "L":
+        return "l" + (",".join(str(inner_code(i)) for i in parse_container(v)) or "-")
+    if v[0] in "DE":
+        return dict_model(parse_container(v))
+    return v
+
+
 def lean_filter(flt, t0):
     return ">".join(f"{b}:{t0}" if b.startswith("ag:") else b for b in flt.split(">"))
 
 
 def lean_line(flt, t0, calls):
-    return " ".join(["c20", lean_filter(flt, t0)] + [f"{t}@{v}" for t, v, _ in calls])
+    return " ".join(["c20", lean_filter(flt, t0)] + [f"{t}@{model_val(v)}" for t, v, _ in calls])
+
+
+def mutate_list(owner, target, rng):
+    """bring the list object `owner` to the content `target` by in-place operations only"""
+    if owner[: len(target)] == target[: len(owner)] and len(target) >= len(owner) and rng.random() < 0.7:
+        for x in target[len(owner):]:
+            owner.append(x)
+    elif not target:
+        owner.clear()
+    elif rng.random() < 0.5:
+        owner.clear()
+        owner.extend(target)
+    else:
+        owner[:] = target
+
+
+INNER_MUTATED = set()   # case texts in which an inner container object was kept and changed in place
+
+
+def mutate_to(owner, target, rng, note=None):
+    """change the container `owner` (and the inner containers it keeps) in place until it equals `target`"""
+    if note is not None:
+        kept = list(zip(owner, target)) if isinstance(owner, list) else [(owner[k], target[k]) for k in owner if k in target]
+        if any(isinstance(a, list) and a != b for a, b in kept):
+            INNER_MUTATED.add(note)
+    if isinstance(owner, list):
+        if target and isinstance(target[0], list) or (owner and isinstance(owner[0], list)):
+            if not target:
+                owner.clear()
+                return
+            while len(owner) > len(target):
+                del owner[rng.randrange(len(owner)) if rng.random() < 0.3 else -1]
+            for i, t in enumerate(target):
+                if i < len(owner):
+                    mutate_list(owner[i], t, rng)        # the inner object stays, its content changes
+                else:
+                    owner.append(list(t))
+        else:
+            mutate_list(owner, target, rng)
+        return
+    if not target:
+        owner.clear()
+        return
+    for k in [k for k in owner if k not in target]:
+        del owner[k]
+    for k, t in target.items():
+        if k in owner and isinstance(owner[k], list) and isinstance(t, list):
+            mutate_list(owner[k], t, rng)
+        elif k not in owner or owner[k] != t:
+            owner[k] = list(t) if isinstance(t, list) else t
 
 
 def py_value(v, as_int, shared):
     k, body = v[0], v[1:]
+    if shared is not None and shared[0] == "inplace":
+        target = ([] if body == "-" else [int(x) for x in body.split(",")]) if k == "l" else parse_container(v)
+        if shared[2] is None:
+            shared[2] = target
+        else:
+            mutate_to(shared[2], target, shared[1], shared[3])
+            assert shared[2] == target, (shared[2], target)
+        return shared[2]
     if k == "n":
         n = int(body)
         if as_int:
@@ -111,6 +221,10 @@ def enc_value(x):
         return "s" + (x.encode().hex() or "-")
     if isinstance(x, list) and all(isinstance(e, int) and not isinstance(e, bool) for e in x):
         return "l" + (",".join(str(e) for e in x) or "-")
+    if isinstance(x, list) and all(isinstance(e, list) and all(type(i) is int for i in e) for e in x):
+        return "l" + ",".join(str(inner_code(e)) for e in x)          # model language: codes of the inner lists
+    if isinstance(x, dict) and all(type(k) is int for k in x):
+        return dict_model(x)
     return "?" + repr(x)[:40]
 
 
@@ -167,6 +281,8 @@ async def run_impl(flt, t0, mode, calls, rng):
         nxt = make_filter(stages[k], recorder(k, nxt))
     f = nxt
     shared = [None, random.Random(case_text(flt, t0, mode, calls))] if mode == "shared" else None
+    if mode == "inplace":
+        shared = ["inplace", random.Random(case_text(flt, t0, mode, calls)), None, case_text(flt, t0, mode, calls)]
     raised = {}
     for i, (t, v, as_int) in enumerate(calls):
         Clock.t = t / TICK
@@ -360,6 +476,59 @@ def gen_case(rng, flt):
     return (flt, t0, mode, [(t, v, i) for t, (v, i) in zip(times, vals)]), vkind
 
 
+def gen_inplace(rng):
+    """one container object owned by the caller: empty when first delivered (or cleared later), then changed in place and
+    passed again as the same object; flat and nested lists / dicts"""
+    shape = rng.choice(["l", "l", "L", "L", "D", "E"])
+    nested = shape in "LE"
+    is_list = shape in "lL"
+
+    def elem():
+        if not nested:
+            return rng.randrange(6)
+        return [rng.randrange(6) for _ in range(rng.choice([0, 1, 1, 2]))]
+
+    r = rng.random()
+    n0 = 0 if r < 0.55 else 1 if r < 0.8 else rng.randint(2, 3)
+    cur = [elem() for _ in range(n0)] if is_list else {k: elem() for k in rng.sample(range(5), n0)}
+    out = []
+    for _ in range(rng.randint(2, 9)):
+        out.append(container_text(cur, nested))
+        r = rng.random()
+        cur = [list(x) if nested else x for x in cur] if is_list else {k: (list(v) if nested else v) for k, v in cur.items()}
+        if r < 0.22:
+            pass                                              # dispatched again unchanged
+        elif r < 0.5 or not cur:
+            if is_list:
+                cur.append(elem())
+            else:
+                cur[rng.randrange(5)] = elem()
+        elif r < 0.62:
+            cur.clear()
+        elif nested and r < 0.85:                             # only an INNER container changes
+            k = rng.randrange(len(cur)) if is_list else rng.choice(sorted(cur))
+            if cur[k] and rng.random() < 0.3:
+                cur[k].pop()
+            else:
+                cur[k].append(rng.randrange(6))
+        elif r < 0.9:
+            if is_list:
+                del cur[0]
+            else:
+                del cur[rng.choice(sorted(cur))]
+        else:
+            if is_list:
+                cur[rng.randrange(len(cur))] = elem()
+            else:
+                cur[rng.choice(sorted(cur))] = elem()
+    r = rng.random()
+    first = gen_base(rng, rng.choice(["oc", "oc", "db", "db", "de", "de", "th", "cu", "ag"]))
+    flt = first if r < 0.7 else first + ">" + gen_base(rng, rng.choice(["oc", "db", "de", "th", "cu"]))
+    t0 = 0
+    times = gen_times(rng, len(out), t0)
+    return (flt, t0, "inplace", [(t, v, False) for t, v in zip(times, out)]), "inplace-" + {"l": "list", "L": "nested-list", "D": "dict", "E": "nested-dict"}[shape]
+
+
 def gen_cases(rng, tier, budget=None):
     quick = tier == "quick"
     per_base = 1500 if quick else 12000
@@ -371,6 +540,8 @@ def gen_cases(rng, tier, budget=None):
         for b in BASES:
             for _ in range(per_chain):
                 yield gen_case(rng, gen_base(rng, a) + ">" + gen_base(rng, b))
+    for _ in range(2500 if quick else 30000):
+        yield gen_inplace(rng)
 
 
 # ---------------------------------------------------------------- checking
@@ -421,7 +592,7 @@ def check_cases(res, cases, rng):
             if any(o.startswith("!") and o != "!" or o.startswith("d?") for o in os_):
                 judge_reqs.append("c20judge-unparsable")
             else:
-                judge_reqs.append(" ".join(["c20judge", lean_filter(st, t0)] + [f"{t}@{v}" for t, v, _ in cs] + ["|"] + os_))
+                judge_reqs.append(" ".join(["c20judge", lean_filter(st, t0)] + [f"{t}@{model_val(v)}" for t, v, _ in cs] + ["|"] + os_))
             judge_idx.append((ci, k))
     verdicts = driver_batch(judge_reqs)
     bad_judge = {}
@@ -465,7 +636,13 @@ def check_cases(res, cases, rng):
         if anomalies:
             res.fail("spec", inp, "each delivery happens once, at the clock reading of its call", anomalies,
                      "delivery time / multiplicity / the delivered object is the object passed in")
-        if ci in bad_judge:
+        if text in INNER_MUTATED and (ci in bad_judge or obs != model):
+            # open finding F10: the remembered value is a SHALLOW copy, a change inside an inner container is not seen
+            res.count("F10-reproduced")
+            if res.dist["F10-reproduced"] <= 3:
+                res.fail("spec", inp, dict(model=model), dict(outcomes=obs, judge=bad_judge.get(ci)),
+                         "a change made in place to an INNER container of a dispatched list / dict is not delivered", finding="F10")
+        elif ci in bad_judge:
             res.fail("spec", inp, dict(model=model), dict(outcomes=obs, judge=bad_judge[ci]),
                      "C20.spec fails on what the implementation delivered (stage, verdict): %s" % bad_judge[ci])
         elif obs != model:
